@@ -452,7 +452,7 @@ func (g *g) stree(depth int, invalidAt *int) *snode {
 		*invalidAt--
 		return g.sleaf(*invalidAt != 0)
 	}
-	n := &snode{kind: 'A', gap: g.gap(), pgap: g.pick([]string{"", "", "", " ", "  ", "\t"}), neg: g.pick2([]int{0, 0, 1})}
+	n := &snode{kind: 'A', gap: g.gap(), pgap: g.pick([]string{"", "", "", " ", "  ", "\t"}), ngap: g.pick([]string{" ", " ", "", "  ", "\n"}), neg: g.pick2([]int{0, 0, 1})}
 	if g.rng.Intn(2) == 0 {
 		n.kind = 'O'
 	}
